@@ -333,7 +333,7 @@ class IOWorld(Machine):
         res = exc = None
         try:
             res = fn()
-        except BaseException as e:   # noqa
+        except Exception as e:
             exc = e
         finally:
             if plan is not None:
@@ -455,7 +455,7 @@ class IOWorld(Machine):
         try:
             mio.export_video(frames, fp, overwrite=bool(op["ow"]))
             exc = None
-        except BaseException as e:  # noqa
+        except Exception as e:
             exc = e
         if existed and not op["ow"]:
             ok = isinstance(exc, OverwriteError)
